@@ -1356,4 +1356,172 @@ theorem overStep_eq_W (f : List Rat → Rat) (s : Src) (center : Bool) (r : Int 
   unfold overStep overStepW
   cases (s.getitem r.1 r.2).samples <;> rfl
 
+/-! ### reductions compatible with blocks: sum, mean, min, max (deepening round D) -/
+
+/-- A reduction is compatible with blocks when reducing the reductions of the `k`-blocks of a list of `q ≥ 1` whole
+    blocks gives the reduction of the list. -/
+def BlockCompat (f : List Rat → Rat) : Prop :=
+  ∀ (k q : Nat) (B : List Rat), 0 < k → 0 < q → B.length = k * q → f ((blocks k B).map f) = f B
+
+theorem by_by_compat' (f : List Rat → Rat) (hf : BlockCompat f) (c : Cont) (k1 k2 : Nat) (hk1 : 0 < k1) (hk2 : 0 < k2) :
+    ∃ r1 r2, downBy f (.cont c) k1 = .ok r1 ∧ downBy f (.cont r1) k2 = .ok r2 ∧
+      downBy f (.cont c) (k1 * k2) = .ok r2 := by
+  obtain ⟨r1, r2, r12, h1, h2, h12, hst, hdt, hd2, hd12⟩ := by_by' f f f c k1 k2 hk1 hk2
+  refine ⟨r1, r2, h1, h2, ?_⟩
+  rw [h12]
+  congr 1
+  have hd : r2.data = r12.data := by
+    rw [hd2, hd12]
+    apply List.map_congr_left
+    intro B hB
+    exact hf k1 k2 B hk1 hk2 (mem_blocks_length _ _ _ hB)
+  cases r2; cases r12
+  simp only at hst hdt hd
+  rw [hst, hdt, hd]
+
+theorem blocks_whole_length (k q : Nat) (hk : 0 < k) (B : List Rat) (h : B.length = k * q) : (blocks k B).length = q := by
+  rw [blocks_length, h, Nat.mul_div_cancel_left _ hk]
+
+theorem sum_map_div (l : List Rat) (k : Rat) : (l.map (fun x => x / k)).sum = l.sum / k := by
+  induction l with
+  | nil => simp
+  | cons a t ih => simp only [List.map_cons, List.sum_cons, ih, add_div]
+
+theorem compat_sum : BlockCompat Reduce.sum.apply := by
+  intro k q B hk _ hB
+  exact sum_blocks k hk q B hB
+
+theorem compat_mean : BlockCompat Reduce.mean.apply := by
+  intro k q B hk hq hB
+  have hmap : (blocks k B).map Reduce.mean.apply = ((blocks k B).map List.sum).map (fun x => x / (k : Rat)) := by
+    rw [List.map_map]
+    apply List.map_congr_left
+    intro b hb
+    simp only [Reduce.apply, Function.comp, mem_blocks_length _ _ _ hb]
+  show ((blocks k B).map Reduce.mean.apply).sum / (((blocks k B).map Reduce.mean.apply).length : Rat) = B.sum / (B.length : Rat)
+  rw [List.length_map, blocks_whole_length k q hk B hB, hmap, sum_map_div, sum_blocks k hk q B hB, hB]
+  push_cast
+  rw [div_div]
+
+/-- `f` picks an extremal element: a member of the (non-empty) list that is `R`-related to every member. -/
+def Extremal (R : Rat → Rat → Prop) (f : List Rat → Rat) : Prop :=
+  ∀ l : List Rat, l ≠ [] → f l ∈ l ∧ ∀ y ∈ l, R (f l) y
+
+theorem mem_of_mem_blocks (k : Nat) (B b : List Rat) (hb : b ∈ blocks k B) (y : Rat) (hy : y ∈ b) : y ∈ B := by
+  unfold blocks at hb
+  obtain ⟨i, _, rfl⟩ := List.mem_map.mp hb
+  exact List.mem_of_mem_drop (List.mem_of_mem_take hy)
+
+/-- Every element of a list of whole blocks lies in one of its blocks. -/
+theorem mem_some_block (k q : Nat) (hk : 0 < k) (B : List Rat) (hB : B.length = k * q) (y : Rat) (hy : y ∈ B) :
+    ∃ b ∈ blocks k B, y ∈ b := by
+  obtain ⟨j, hj, rfl⟩ := List.mem_iff_getElem.mp hy
+  have hi : j / k < q := by
+    rw [Nat.div_lt_iff_lt_mul hk, Nat.mul_comm]; omega
+  have hlen : j / k < (blocks k B).length := by rw [blocks_whole_length k q hk B hB]; exact hi
+  refine ⟨(blocks k B)[j / k], List.getElem_mem hlen, ?_⟩
+  rw [blocks_getElem]
+  have hmod := Nat.mod_lt j hk
+  have hdm := Nat.div_add_mod j k
+  have hle : (j / k + 1) * k ≤ k * q := by
+    rw [Nat.mul_comm k q]; exact Nat.mul_le_mul_right k hi
+  have e : (j / k + 1) * k = j / k * k + k := by ring
+  have e2 : k * (j / k) = j / k * k := by ring
+  apply List.mem_iff_getElem.mpr
+  refine ⟨j % k, ?_, ?_⟩
+  · rw [List.length_take, List.length_drop]; omega
+  · rw [List.getElem_take, List.getElem_drop]
+    congr 1
+    omega
+
+theorem compat_of_extremal (R : Rat → Rat → Prop) (hanti : ∀ a b, R a b → R b a → a = b)
+    (htrans : ∀ a b c, R a b → R b c → R a c) (f : List Rat → Rat) (hf : Extremal R f) : BlockCompat f := by
+  intro k q B hk hq hB
+  have hBne : B ≠ [] := by
+    intro h; rw [h] at hB; simp at hB
+    have := Nat.mul_pos hk hq; omega
+  have hlen := blocks_whole_length k q hk B hB
+  have hne : (blocks k B).map f ≠ [] := by
+    intro h
+    have := congrArg List.length h
+    simp only [List.length_map, hlen, List.length_nil] at this
+    omega
+  obtain ⟨hm, hlow⟩ := hf _ hne
+  obtain ⟨hBm, hBlow⟩ := hf B hBne
+  have hbne : ∀ b ∈ blocks k B, b ≠ [] := by
+    intro b hb h
+    have := mem_blocks_length _ _ _ hb
+    rw [h] at this; simp at this; omega
+  -- the reduction of the block reductions is a member of B …
+  obtain ⟨b, hb, hfb⟩ := List.mem_map.mp hm
+  have hmemB : f ((blocks k B).map f) ∈ B := by
+    rw [← hfb]
+    exact mem_of_mem_blocks k B b hb _ (hf b (hbne b hb)).1
+  -- … related to every member of B
+  have hall : ∀ y ∈ B, R (f ((blocks k B).map f)) y := by
+    intro y hy
+    obtain ⟨b', hb', hyb⟩ := mem_some_block k q hk B hB y hy
+    exact htrans _ _ _ (hlow (f b') (List.mem_map.mpr ⟨b', hb', rfl⟩)) ((hf b' (hbne b' hb')).2 y hyb)
+  exact hanti _ _ (hall _ hBm) (hBlow _ hmemB)
+
+theorem foldl_rmin_spec : ∀ (xs : List Rat) (x : Rat),
+    xs.foldl rmin x ∈ x :: xs ∧ ∀ y ∈ x :: xs, xs.foldl rmin x ≤ y
+  | [], x => by simp
+  | z :: zs, x => by
+    obtain ⟨h1, h2⟩ := foldl_rmin_spec zs (rmin x z)
+    simp only [List.foldl_cons]
+    have hr : (rmin x z = x ∧ x ≤ z) ∨ (rmin x z = z ∧ z ≤ x) := by
+      unfold rmin
+      by_cases h : x ≤ z
+      · left; simp [h]
+      · right; simp [h]; exact le_of_lt (not_le.mp h)
+    constructor
+    · rcases List.mem_cons.mp h1 with h | h
+      · rcases hr with ⟨e, _⟩ | ⟨e, _⟩ <;> rw [h, e] <;> simp
+      · simp [h]
+    · intro y hy
+      have hm := h2 (rmin x z) (by simp)
+      rcases List.mem_cons.mp hy with rfl | hy
+      · rcases hr with ⟨e, h⟩ | ⟨e, h⟩ <;> rw [e] at hm ⊢ <;> linarith
+      · rcases List.mem_cons.mp hy with rfl | hy
+        · rcases hr with ⟨e, h⟩ | ⟨e, h⟩ <;> rw [e] at hm ⊢ <;> linarith
+        · exact h2 y (by simp [hy])
+
+theorem foldl_rmax_spec : ∀ (xs : List Rat) (x : Rat),
+    xs.foldl rmax x ∈ x :: xs ∧ ∀ y ∈ x :: xs, y ≤ xs.foldl rmax x
+  | [], x => by simp
+  | z :: zs, x => by
+    obtain ⟨h1, h2⟩ := foldl_rmax_spec zs (rmax x z)
+    simp only [List.foldl_cons]
+    have hr : (rmax x z = z ∧ x ≤ z) ∨ (rmax x z = x ∧ z ≤ x) := by
+      unfold rmax
+      by_cases h : x ≤ z
+      · left; simp [h]
+      · right; simp [h]; exact le_of_lt (not_le.mp h)
+    constructor
+    · rcases List.mem_cons.mp h1 with h | h
+      · rcases hr with ⟨e, _⟩ | ⟨e, _⟩ <;> rw [h, e] <;> simp
+      · simp [h]
+    · intro y hy
+      have hm := h2 (rmax x z) (by simp)
+      rcases List.mem_cons.mp hy with rfl | hy
+      · rcases hr with ⟨e, h⟩ | ⟨e, h⟩ <;> rw [e] at hm ⊢ <;> linarith
+      · rcases List.mem_cons.mp hy with rfl | hy
+        · rcases hr with ⟨e, h⟩ | ⟨e, h⟩ <;> rw [e] at hm ⊢ <;> linarith
+        · exact h2 y (by simp [hy])
+
+theorem compat_min : BlockCompat Reduce.min.apply := by
+  apply compat_of_extremal (· ≤ ·) (fun a b h1 h2 => le_antisymm h1 h2) (fun a b c h1 h2 => le_trans h1 h2)
+  intro l hl
+  cases l with
+  | nil => exact absurd rfl hl
+  | cons x xs => exact foldl_rmin_spec xs x
+
+theorem compat_max : BlockCompat Reduce.max.apply := by
+  apply compat_of_extremal (· ≥ ·) (fun a b h1 h2 => le_antisymm h2 h1) (fun a b c h1 h2 => le_trans h2 h1)
+  intro l hl
+  cases l with
+  | nil => exact absurd rfl hl
+  | cons x xs => exact foldl_rmax_spec xs x
+
 end Verif.C04
